@@ -221,7 +221,10 @@ Definition do_enter (c : cfg) (s0 : st) (a t : N) : st :=
   | PG, V_IN =>
       entry_record c s {| f_addr := a; f_start := t; f_end := 0; f_flags := noflags; f_depth := ridx s;
                           sv_depth := 0; sv_max := 0; sv_time := 0; sv_size := 0; f_ghost := false |} tr sv
-  | PG, _ => s                                   (* mcount_entry returns -1: nothing pushed *)
+  | PG, V_OUT =>                                 (* mcount_entry returns -1: nothing pushed, and what the trigger *)
+      {| fc := fc s0; enabled := enabled s; cached := cached s; stack := stack s; ridx := ridx s;   (* changed is undone *)
+         out := out s; warned := warned s |}           (* (mcount_entry_filter_undo) - except the global trace switch *)
+  | PG, _ => s                                   (* beyond the stack limit: nothing was changed *)
   | CYG, V_RSTACK =>
       {| fc := fc s; enabled := enabled s; cached := cached s; stack := ghost_frame :: stack s;
          ridx := ridx s; out := out s; warned := warned s |}
@@ -237,6 +240,15 @@ Definition do_enter (c : cfg) (s0 : st) (a t : N) : st :=
                                         disabled := false; ftrace := false; fcaller := false; cygprof := true |};
                           f_depth := ridx s;
                           sv_depth := 0; sv_max := 0; sv_time := 0; sv_size := 0; f_ghost := false |} tr sv
+  end.
+
+(* the code as found (before mcount_entry_filter_undo): a rejected -pg entry kept what its trigger had changed *)
+Definition do_enter_legacy (c : cfg) (s0 : st) (a t : N) : st :=
+  let '(s, v, tr, sv) := entry_check c s0 a in
+  match shp c, v with
+  | PG, V_IN => do_enter c s0 a t
+  | PG, _ => s
+  | CYG, _ => do_enter c s0 a t
   end.
 
 (* ---------------------------------------------------------------- exit *)
@@ -337,6 +349,14 @@ Definition dstep (c : cfg) (d : dstate) (e : ev) : dstate :=
   | ForkChild => (do_fork_child s, hk)
   end.
 Definition exec (c : cfg) (es : list ev) (d : dstate) : dstate := fold_left (dstep c) es d.
+
+Definition dstep_legacy (c : cfg) (d : dstate) (e : ev) : dstate :=
+  let '(s, hk) := d in
+  match e with
+  | Enter a t => (do_enter_legacy c s a t, hooked c s a :: hk)
+  | _ => dstep c d e
+  end.
+Definition exec_legacy (c : cfg) (es : list ev) (d : dstate) : dstate := fold_left (dstep_legacy c) es d.
 
 (* observation after each event, as mc_harness prints it (STATE) *)
 Definition obs := (Z * Z * N * N * N * N * N * N * bool)%type.
